@@ -120,6 +120,7 @@ func init() {
 				{Scenario: "c16_race", Params: mustJSON(ScrapeRaceParams{Against: "close"}), Bound: b, Shards: sh},
 				{Scenario: "c16_race", Params: mustJSON(ScrapeRaceParams{Against: "rebalance"}), Bound: b, Shards: sh},
 				{Scenario: "c16_race", Params: mustJSON(ScrapeRaceParams{Against: "open"}), Bound: b, Shards: sh},
+				{Scenario: "c16_infoduringopen", Params: mustJSON(struct{}{}), Bound: 1, Shards: 4, Note: "a new numbering published at every point of the Open() of the first and of a second session: membership and range gauges describe one assignment, the one the streams were opened for"},
 				{Scenario: "c16_race", Params: mustJSON(ScrapeRaceParams{Against: "scrape", Inject: true}), Bound: 1, Shards: 8, Note: "two overlapping scrapes of the one collector (a whole scrape injected at every point of another, plus one deviation): each reports a total lag equal to the sum of its own per-vBucket lags"},
 				{Scenario: "c16_race", Params: mustJSON(ScrapeRaceParams{Against: "scrape"}), Bound: b, Shards: sh, Note: "two overlapping scrapes under every schedule within the bound"},
 				{Scenario: "c16_race", Params: mustJSON(ScrapeRaceParams{Against: "close", Inject: true}), Bound: 1, Shards: 8, Note: "scrape injected at every scheduling point of Close, plus one further deviation"},
@@ -574,4 +575,71 @@ func scrapeRaceMain(p ScrapeRaceParams) {
 		}
 	}
 	vrt.SetOutcome(fmt.Sprintf("%s:%d", p.Against, len(got)))
+}
+
+// c16_infoduringopen: dynamic membership; a new numbering is published at every scheduling point of the Open()
+// that starts a session (start-up and the re-open after a rebalance). Whatever Open() picks up, the membership
+// gauges and the vBucket-range gauges of the next scrape describe ONE assignment: the range is the chunk of
+// (member number, group size) as reported.
+func init() {
+	scenarios["c16_infoduringopen"] = func(raw json.RawMessage) *vrt.Scenario {
+		return &vrt.Scenario{Name: "c16_infoduringopen", FreeChoices: true, NoTimerAlt: true, MaxSteps: 400000, Main: func() {
+			resetGlobals()
+			o := EnvOpts{Vbs: 8, CheckpointType: "manual", MembershipType: "dynamic", WrapMeta: true}
+			c := NewCluster(&o)
+			e := NewEnv(c, o)
+			e.Cons.AutoAck = true
+			second := vrt.Choose(2, true, "session") == 1
+			vrt.GoNamed("first-membership", func() {
+				vrt.Sleep(1)
+				publishInfo(e, 1, 2)
+			})
+			vrt.Sleep(2)
+			if second {
+				e.Stream.Open()
+				c.WaitIdle()
+				e.Stream.Close(false)
+			}
+			k := vrt.Choose(60, true, "publish-at-point")
+			vrt.Window(true)
+			done := false
+			vrt.GoNamed("opener", func() {
+				e.Stream.Open()
+				done = true
+			})
+			vrt.InjectAtomic("opener", k, func() {
+				publishInfo(e, 2, 4)
+			})
+			vrt.Sleep(5e9)
+			vrt.Quiesce()
+			vrt.Window(false)
+			c.WaitIdle()
+			if !done {
+				vrt.Failf("Open() did not return")
+				return
+			}
+			got, err := scrape(e)
+			if err != nil {
+				vrt.Failf("scrape failed: %v", err)
+				return
+			}
+			m, t := int(got["cbgo_member_number_current"]), int(got["cbgo_total_members_current"])
+			rs, re := int(got["cbgo_vbucket_range_start_current"]), int(got["cbgo_vbucket_range_end_current"])
+			want := map[[2]int][2]int{{1, 2}: {0, 3}, {2, 4}: {2, 3}}
+			w, ok := want[[2]int{m, t}]
+			if !ok {
+				vrt.Failf("numbering published at point %d of Open(): the gauges report member %d of %d, which was never announced", k, m, t)
+			} else if w != [2]int{rs, re} {
+				vrt.Failf("numbering published at point %d of Open() (session %d): the gauges report member %d of %d but the vBucket range %d..%d (the range of member %d of %d is %d..%d): they do not describe one assignment", k, map[bool]int{false: 1, true: 2}[second], m, t, rs, re, m, t, w[0], w[1])
+			}
+			// ... and it is the assignment the streams were opened for
+			for vb := 0; vb < 8; vb++ {
+				if c.StreamOpen(uint16(vb)) != (vb >= rs && vb <= re) {
+					vrt.Failf("numbering published at point %d of Open(): vb%d streamed=%v, the gauges report the range %d..%d", k, vb, c.StreamOpen(uint16(vb)), rs, re)
+				}
+			}
+			vrt.SetOutcome(fmt.Sprintf("session=%v|%d/%d|%d..%d", second, m, t, rs, re))
+			e.Stream.Close(false)
+		}}
+	}
 }
